@@ -127,10 +127,9 @@ Print Assumptions no_marker_survives.
 
 (* EVERY placeholder of a document is replaced by the block of its kind - any number of placeholders of
    both kinds (the normal page: CSS placeholder in <head>, JS placeholder in <body>), each with any number of
-   data-djc-id attributes (the repaired defect 59fa6d8) and data-djc-css attributes (\w{6} values; in ANY order when
-   PLACEHOLDER_REGEX has the shape of notes/fixes/C04-placeholder-css-attr-order.patch - `any_order`, read from the
-   source on every run - otherwise at most one css attribute, in front) and an optional "/" - for text pieces free of
-   "_PLACEHOLDER"; the two flags say which kinds were found. *)
+   data-djc-id attributes (the repaired defect 59fa6d8) and data-djc-css attributes in ANY order (the repaired defect
+   be574c3; \w{6} values) and an optional "/" - for text pieces free of "_PLACEHOLDER"; the two flags say which kinds
+   were found. *)
 Theorem placeholders_all_replaced : forall d tail js_b css_b,
   ph_pieces_ok d tail ->
   subst_placeholders (phdoc_bytes d tail) js_b css_b = (phdoc_subst d tail js_b css_b, has_kind KJs d, has_kind KCss d).
@@ -301,12 +300,10 @@ Example placeholder_hypotheses_satisfiable :
   assemble Fragment (phdoc_bytes ex_phdoc (s2n "</body>")) [74] [67] = s2n "<head></head><body>xy</body>J".
 Proof. repeat split; vm_compute; reflexivity. Qed.
 
-(* the placeholder of corpus/C04/placeholder-css-attr-order.json (ids first, css attribute last): replaced exactly when
-   the pattern accepts the attributes in any order *)
+(* the placeholder of corpus/C04/placeholder-css-attr-order.json (witness of be574c3): ids first, css attribute last *)
 Example placeholder_css_attr_last :
   let p := {| ph_kind := KCss; ph_attrl := [(false, [97;48;48;48;48;49]); (true, [48;97;49;98;50;99])]; ph_slash := true |} in
-  ph_wfb p = any_order /\
-  subst_placeholders (ph_bytes p) [74] [67] = if any_order then ([67], false, true) else (ph_bytes p, false, false).
+  ph_wfb p = true /\ subst_placeholders (ph_bytes p) [74] [67] = ([67], false, true).
 Proof. split; vm_compute; reflexivity. Qed.
 
 (* end to end with a concrete serialisation: class A (js "k", css "c") twice around class K (js "j") in a page with
